@@ -17,7 +17,7 @@ import rxsci.framing.line as line                      # noqa: E402
 import rxsci.framing.length_prefix as lp               # noqa: E402
 from ..progs import call                                # noqa: E402  (positional / keyword calling conventions)
 
-LINE_ALPHA = ['', 'a', 'bc', '\x00', '\r', '\x03\x00', 'é', '\x00\x00\x00\x01', ' ']
+LINE_ALPHA = ['', 'a', 'bc', '\x00', '\r', '\x03\x00', 'é', '\x00\x00\x00\x01', ' ', '\x0c', '\u2028b']
 LP_ALPHA = [b'', b'a', b'\n', b'\x00', b'\x01\x00', b'\x00\x00\x00\x00', b'xy\n', b'\xff']
 
 
@@ -89,7 +89,7 @@ class C15(Check):
         for _ in range(n):
             ln = rng.choice([0, 0, 1, 2, 3, rng.randint(0, maxlen)])
             if cfg['framing'] == 'line':
-                alpha = 'ab \x00\r\x01é€"\\,'
+                alpha = 'ab \x00\r\x01é€"\\,\x0b\x0c\x1d\x85\u2028'       # (incl. the characters str.splitlines() would split on)
                 items.append(''.join(rng.choice(alpha) for _ in range(ln)))
             else:
                 if cfg['prefix'] == 1:
